@@ -65,6 +65,15 @@ def main(c):
                 if not ok and os.path.exists(dump):
                     out.write(json.dumps(cex_to_sched(dump)) + "\n")
                     nsched += 1
+            # 2a'. negative control of the repair's design: a callback that releases the mutex while it sends
+            #      (EmitUnlocked) is refuted; its counterexample is replayed as a schedule too
+            dump = os.path.join(c.scratch, "cex_emitunlocked.json")
+            ok, _ = c.model_check(specs, "MC_ParserLife.tla", "MC_ParserLife_emitunlocked.cfg", workers=1,
+                                  extra=("-dumpTrace", "json", dump), expect_violation=True)
+            c.cov["emit_unlocked_shape_refuted"] = not ok
+            if not ok and os.path.exists(dump):
+                out.write(json.dumps(cex_to_sched(dump)) + "\n")
+                nsched += 1
             # 2b. the state-clobber interleaving made visible (needs four symbols): the callback of the first ESC
             #     resets the state between "[" and "A" of the following sequence
             out.write(json.dumps({
